@@ -1049,6 +1049,11 @@ type parserLog struct {
 	in       *interner
 	failures []string
 	answers  int
+	// every distinct string handed to the real parser, with its answer: compared with the
+	// model of the parser itself (Model.go_media_type) as PC cases
+	seen     map[string]bool
+	cases    []mcase
+	capCases int
 }
 
 // oracle logs mime.ParseMediaType(s) as association entries (string id -> answer) and
@@ -1063,6 +1068,20 @@ func (pl *parserLog) oracle(ss []string) (ol, el []int) {
 		seen[s] = true
 		pl.answers++
 		m, _, err := mime.ParseMediaType(s)
+		if pl.seen == nil {
+			pl.seen = map[string]bool{}
+		}
+		if !pl.seen[s] && len(pl.cases) < pl.capCases {
+			pl.seen[s] = true
+			code := 0
+			if err != nil {
+				code = 1
+				if m == "" {
+					code = 2
+				}
+			}
+			pl.cases = append(pl.cases, mcase{kind: 'P', hdr: pl.in.id(s), code: code, oct: pl.in.id(m)})
+		}
 		if err != nil {
 			ol = append(ol, pl.in.id(s), -1)
 			el = append(el, pl.in.id(s), pl.in.id(m))
@@ -1192,6 +1211,8 @@ func writeShard(dir string, k int, cases []mcase, idxs []int, global *interner) 
 			fmt.Fprintf(&lines, "QC %d %d %s %d %d %d\n", idxs[j], sid(c.hdr), nums(ol), c.code, sid(c.oct), c.ost)
 		case 'E':
 			fmt.Fprintf(&lines, "EC %d %d %d\n", idxs[j], sid(c.p), sid(c.hdr))
+		case 'P':
+			fmt.Fprintf(&lines, "PC %d %d %d %d\n", idxs[j], sid(c.hdr), c.code, sid(c.oct))
 		}
 	}
 	var st strings.Builder
@@ -1243,7 +1264,10 @@ func main() {
 	res := vh.NewResult()
 	in := &interner{idx: map[string]int{}}
 	in.id("")
-	pl := &parserLog{in: in}
+	pl := &parserLog{in: in, capCases: 6000}
+	if *tier == "thorough" {
+		pl.capCases = 60000
+	}
 	for _, f := range five {
 		if specNorm(f) != f {
 			pl.failures = append(pl.failures, "parser_fixes_supported: "+f)
@@ -1639,6 +1663,12 @@ func main() {
 			panic(err)
 		}
 	}
+	// ---- the real parser's answers against the model of the parser
+	for _, pc := range pl.cases {
+		mcases = append(mcases, pc)
+		logCase(map[string]any{"stream": "parser", "value": BStr(in.list[pc.hdr])}, map[string]any{"code": pc.code, "media_type": BStr(in.list[pc.oct])})
+	}
+	res.Extra["model_cases_parser"] = len(pl.cases)
 	// ---- shards: every shard carries its own vocabulary and strings
 	nshards := (len(mcases) + *shardSize - 1) / *shardSize
 	if nshards < 1 {
